@@ -64,6 +64,11 @@ pub fn handle(op: &str, a: &[&str]) -> Option<String> {
             v.dec();
             ok_i(&v)
         }
+        // api-coverage: `Integer::divides` (deprecated; own one-line body forwarding to `is_multiple_of`)
+        #[allow(deprecated)]
+        ("u.divides", [x, y]) => format!("ok {}", show_bool(parse_u(x)?.divides(&parse_u(y)?))),
+        #[allow(deprecated)]
+        ("i.divides", [x, y]) => format!("ok {}", show_bool(parse_i(x)?.divides(&parse_i(y)?))),
         _ => return None,
     })
 }
